@@ -69,6 +69,36 @@ def case_spec(prop, seed, i):
     return name, gen.gen_spec(rnd, **kw)
 
 
+def sibling_spec(sp, rnd):
+    """A second design space graph that differs from `sp` only in a detail of one connection choice -- WHICH pair is
+    excluded (moved to a look-alike connector with the same degrees), or whether one connector accepts parallel
+    connections.  Decoded in the same process and cache directory right after `sp`: anything keyed too coarsely
+    (on-disk matrix / selection caches, in-memory memos) serves the sibling the answers of the first graph."""
+    import copy
+    sp2 = copy.deepcopy(sp)
+    nodes = {n['id']: n for n in sp2['nodes']}
+    cands = [k for k in sp2.get('conn', []) if sum(isinstance(x, str) for x in k['src'] + k['tgt']) >= 2]
+    if not cands:
+        return None
+    k = rnd.choice(cands)
+    ex = [p for p in k.get('exclude', []) if isinstance(p[0], str) and isinstance(p[1], str)]
+    if ex and rnd.random() < .6:
+        s_, t_ = rnd.choice(ex)
+        side, fixed, moved = ('tgt', s_, t_) if rnd.random() < .5 else ('src', t_, s_)
+        others = [x for x in k[side] if isinstance(x, str) and x != moved and
+                  ([fixed, x] if side == 'tgt' else [x, fixed]) not in k['exclude']]
+        if others:
+            o = rnd.choice(others)
+            nodes[o]['deg'], nodes[o]['rep'] = copy.deepcopy(nodes[moved]['deg']), nodes[moved]['rep']
+            k['exclude'].remove([s_, t_])
+            k['exclude'].append([fixed, o] if side == 'tgt' else [o, fixed])
+            return sp2
+    plain = [x for x in k['src'] + k['tgt'] if isinstance(x, str)]
+    x = rnd.choice(plain)
+    nodes[x]['rep'] = not nodes[x]['rep']
+    return sp2
+
+
 def dv_followers(model):
     f = set()
     for c in model.spec['constraints']:
@@ -652,6 +682,10 @@ def worker(task, col):
     cap = task.get('cap', 300)
     if task.get('replay'):
         v = task['replay']['violation']
+        if v.get('pre_spec'):
+            from ..core import Collector
+            tmp = Collector()
+            common.guard(tmp, check_case, prop, v['pre_spec'], tmp, 'replay_pre', cap=cap)
         common.guard(col, check_case, prop, v['spec'], col, 'replay', cap=max(cap, 2000))
         return
     if task['shard'] == 1 and prop == 'C14':
@@ -693,6 +727,18 @@ def worker(task, col):
         common.guard(col, check_case, prop, sp, col, name, cap=cap)
         if sp.get('conn') and len(col.violations) > n0:
             common.attribute_to_pattern_encoders(col, n0, lambda c, sp=sp: check_case(prop, sp, c, 'rerun', cap=cap))
+        if prop in ('C01', 'C04') and sp.get('conn') and i % 3 == 0:
+            sp2 = sibling_spec(sp, gen.rng_for('sibling', prop, task['seed'], i))
+            if sp2 is not None:
+                n0 = len(col.violations)
+                col.count('sibling_cases')
+                common.guard(col, check_case, prop, sp2, col, name + '_sibling', cap=cap)
+                if len(col.violations) > n0:
+                    for v in col.violations[n0:]:
+                        v.setdefault('where', {})['sibling_after'] = S.digest(sp)[:12]
+                        v['pre_spec'] = sp    # replay decodes this graph first, in the same process
+                    common.attribute_to_pattern_encoders(col, n0, lambda c, sp=sp2: check_case(prop, sp, c, 'rerun',
+                                                                                               cap=cap))
 
 
 RULES = {
